@@ -886,3 +886,87 @@ Section Accessors.
     - rewrite map_mapi_from. apply mapi_from_ext. intros j v _. reflexivity.
   Qed.
 End Accessors.
+
+(* ---------------------------------------------------------------------------------- *)
+(* Methods: each exactly once, in the given order                                      *)
+(* ---------------------------------------------------------------------------------- *)
+Lemma shape_names ms ds : Forall2 method_shape ms ds -> map dname ds = map fst ms.
+Proof. induction 1 as [|m d ms ds (H & _) _ IH]; simpl; [reflexivity | now rewrite H, IH]. Qed.
+
+Theorem methods_once cx (TOK : tables_ok cx) dstp inp is :
+  Forall2 (fun i id =>
+     i_name id = if_name i /\ i_struct id = if_struct i /\
+     map dname (i_methods id) = map fst (if_methods i) /\
+     Forall2 method_shape (if_methods i) (i_methods id) /\
+     map vty (i_tparams id) = map snd (if_tparams i))
+    is (f_ifaces (gen_file cx dstp inp is)).
+Proof.
+  destruct (gen_file_spec cx TOK dstp inp is) as (_ & _ & _ & _ & SH & _).
+  eapply Forall2_impl; [|exact SH]. intros i id (A & B & C & D). repeat split; auto. now apply shape_names.
+Qed.
+
+(* ---------------------------------------------------------------------------------- *)
+(* Type parameters                                                                     *)
+(* ---------------------------------------------------------------------------------- *)
+Lemma suggest_id s p : ~ In p s -> suggest s p = p.
+Proof.
+  intros H. unfold suggest. destruct (fresh_cand 1 p s) as (k & E & F). rewrite E.
+  destruct k as [|k]; [reflexivity|]. exfalso. apply H. apply (F 0). lia.
+Qed.
+
+Section TParams.
+  Variable cx : ctx.
+
+  Lemma fold_scope_incl ps : forall st, incl (snd (fst st)) (snd (fst (fold_left (scope_add_import cx) ps st))).
+  Proof.
+    induction ps as [|p ps IH]; intros st; simpl; [apply incl_refl|].
+    eapply incl_tran; [|apply IH]. destruct st as [[r s] m]. unfold scope_add_import.
+    destruct (add_import r (pkg_name cx p) p). simpl. intros x Hx. now right.
+  Qed.
+
+  Definition named_from (s : scope) (x : label * ty) (v : var_) : Prop :=
+    exists s1, incl s1 s /\ vname v = suggest s1 (var_name cx (lname (fst x)) (snd x)).
+
+  Lemma add_var_names st xs x :
+    Forall2 (named_from (snd (fst st))) xs (snd st) ->
+    Forall2 (named_from (snd (fst (add_var cx st x)))) (xs ++ [x]) (snd (add_var cx st x)).
+  Proof.
+    destruct st as [[r s] vs]. simpl. intros H. unfold add_var.
+    pose proof (fold_scope_incl (imports_of (snd x)) (r, s, [])) as I. unfold populate.
+    destruct (fold_left (scope_add_import cx) (imports_of (snd x)) (r, s, [])) as [[r' s'] m]. simpl in *.
+    apply Forall2_app.
+    - eapply Forall2_impl; [|exact H]. intros a b (s1 & I1 & N). exists s1. split; [|exact N].
+      intros y Hy. right. apply I, I1, Hy.
+    - constructor; [|constructor]. eexists. split; [apply incl_refl | reflexivity].
+  Qed.
+
+  Lemma fold_add_var_names ys : forall st xs,
+    Forall2 (named_from (snd (fst st))) xs (snd st) ->
+    Forall2 (named_from (snd (fst (fold_left (add_var cx) ys st)))) (xs ++ ys) (snd (fold_left (add_var cx) ys st)).
+  Proof.
+    induction ys as [|y ys IH]; intros st xs H; simpl; [now rewrite app_nil_r|].
+    specialize (IH _ _ (add_var_names st xs y H)). now rewrite <- app_assoc in IH.
+  Qed.
+
+  (* a type parameter keeps its name unless the name is visible in the scope in which the
+     type parameters are named (an import qualifier of the file so far, the type string of
+     a constraint) *)
+  Theorem tparam_names r i :
+    let id := snd (gen_iface cx r i) in
+    forallb (fun x => negb (blank (lname (fst x))) && negb (smem (lname (fst x)) (i_tpscope id))) (if_tparams i) = true ->
+    map vname (i_tparams id) = map (fun x => lname (fst x)) (if_tparams i).
+  Proof.
+    unfold gen_iface.
+    destruct (methods_data cx (map (fun it => lname (fst it)) (if_tparams i)) r (if_methods i)) as [r1 ds].
+    unfold run_group.
+    pose proof (fold_add_var_names (if_tparams i) (r1, fold_left add_name [] (new_scope r1), []) [] (Forall2_nil _)) as N.
+    destruct (fold_left (add_var cx) (if_tparams i) (r1, fold_left add_name [] (new_scope r1), [])) as [[r2 s2] tps].
+    simpl in *. intros G. rewrite forallb_forall in G.
+    induction N as [|x v xs vs (s1 & I1 & Nm) _ IH]; simpl; [reflexivity|].
+    f_equal.
+    - specialize (G x (or_introl eq_refl)). apply andb_true_iff in G as [G1 G2].
+      rewrite Nm. unfold var_name. rewrite G1. apply suggest_id.
+      apply negb_true_iff in G2. apply smem_false in G2. intros H. apply G2, I1, H.
+    - apply IH. intros y Hy. apply G. now right.
+  Qed.
+End TParams.
